@@ -246,20 +246,30 @@ Qed.
 
 (** non-vacuity: the Chrome_146 builder on a full slice and on a short last slice, two different
     oracle positions: both payloads are built, satisfy every hypothesis, and show [0;1;6] *)
+Definition out_ws (r : res (list wframe * list Z * list Z)) : list wframe := match r with Ok (ws, _, _) => ws | _ => [] end.
+Definition out_bs (r : res (list wframe * list Z * list Z)) : list Z := match r with Ok (_, b, _) => b | _ => [] end.
+Definition out_us (r : res (list wframe * list Z * list Z)) : list Z := match r with Ok (_, _, u) => u | _ => [] end.
+Definition ex_run1 := build_internal ex_p (repeat 7 300%nat) 0 ex_bs ex_us.
+Definition ex_run2 := build_internal ex_p (repeat 9 120%nat) 300 (skipn 300 ex_bs) (skipn 50 ex_us).
+Lemma ex_run1_ok : ex_run1 = Ok (out_ws ex_run1, out_bs ex_run1, out_us ex_run1).
+Proof. vm_compute. reflexivity. Qed.
+Lemma ex_run2_ok : ex_run2 = Ok (out_ws ex_run2, out_bs ex_run2, out_us ex_run2).
+Proof. vm_compute. reflexivity. Qed.
+
 Lemma builder_example :
   In (1, 4, 6, 14, 2, 6, 1215) uspec_parrot_builders /\
-  slice_ok ex_p (repeat 7 1145%nat) 0 /\ slice_ok ex_p (repeat 9 589%nat) 1145 /\
+  slice_ok ex_p (repeat 7 300%nat) 0 /\ slice_ok ex_p (repeat 9 120%nat) 300 /\
   exists ws1 r1 s1 ws2 r2 s2,
-    build_internal ex_p (repeat 7 1145%nat) 0 ex_bs ex_us = Ok (ws1, r1, s1) /\
-    build_internal ex_p (repeat 9 589%nat) 1145 (skipn 300 ex_bs) (skipn 50 ex_us) = Ok (ws2, r2, s2) /\
+    build_internal ex_p (repeat 7 300%nat) 0 ex_bs ex_us = Ok (ws1, r1, s1) /\
+    build_internal ex_p (repeat 9 120%nat) 300 (skipn 300 ex_bs) (skipn 50 ex_us) = Ok (ws2, r2, s2) /\
     dedup (isort (wtypes ws1)) = [0; 1; 6] /\ dedup (isort (wtypes ws2)) = [0; 1; 6] /\ wtypes ws1 <> wtypes ws2.
 Proof.
   split; [vm_compute; tauto|]. split; [vm_compute; intuition discriminate|]. split; [vm_compute; intuition discriminate|].
-  destruct (build_internal ex_p (repeat 7 1145%nat) 0 ex_bs ex_us) as [[[ws1 r1] s1]|c|] eqn:E1;
-    [|vm_compute in E1; discriminate|vm_compute in E1; discriminate].
-  destruct (build_internal ex_p (repeat 9 589%nat) 1145 (skipn 300 ex_bs) (skipn 50 ex_us)) as [[[ws2 r2] s2]|c|] eqn:E2;
-    [|vm_compute in E2; discriminate|vm_compute in E2; discriminate].
-  exists ws1, r1, s1, ws2, r2, s2. split; [reflexivity|]. split; [reflexivity|].
-  vm_compute in E1. vm_compute in E2. inversion E1; subst. inversion E2; subst.
-  split; [vm_compute; reflexivity|]. split; [vm_compute; reflexivity|]. vm_compute. discriminate.
+  exists (out_ws ex_run1), (out_bs ex_run1), (out_us ex_run1), (out_ws ex_run2), (out_bs ex_run2), (out_us ex_run2).
+  split; [exact ex_run1_ok|]. split; [exact ex_run2_ok|].
+  split; [vm_compute; reflexivity|]. split; [vm_compute; reflexivity|].
+  assert (H : negb (zeqb_list (wtypes (out_ws ex_run1)) (wtypes (out_ws ex_run2))) = true) by (vm_compute; reflexivity).
+  intros E. rewrite E in H. clear E.
+  assert (R : forall l, zeqb_list l l = true) by (intros l; apply zeqb_list_eq; reflexivity).
+  rewrite R in H. discriminate.
 Qed.
